@@ -65,6 +65,15 @@ pub fn new_app() -> PApp {
     b.with_custom(CustomMod).build(|_, _, _| {})
 }
 
+/// An instance of the same type but with another address prefix and another starting block.
+pub fn new_foreign_app(prefix: &'static str) -> PApp {
+    let b: cw_multi_test::BasicAppBuilder<PMsg, PQuery> = AppBuilder::new_custom();
+    b.with_custom(CustomMod)
+        .with_api(MockApi::default().with_prefix(prefix))
+        .with_block(BlockInfo { height: 987_654, time: Timestamp::from_seconds(1_111_111_111), chain_id: format!("{}-foreign-1", prefix) })
+        .build(|_, _, _| {})
+}
+
 // --- programs ------------------------------------------------------------------------------------
 
 #[derive(Clone, Debug, Serialize, Deserialize, PartialEq)]
@@ -118,6 +127,16 @@ fn block_tuple(b: &BlockInfo) -> (u64, u64, String) {
 }
 
 impl World {
+    /// A differently configured instance (other bech32 prefix, other block); its model comparison is meaningless
+    /// (the model assumes the default codec) — it exists to exercise the real code before / next to other instances.
+    pub fn new_foreign(prefix: &'static str) -> World {
+        let app = new_foreign_app(prefix);
+        let model = ChainM::new(block_tuple(&app.block_info()));
+        let users = (0..3).map(|i| app.api().addr_make(&format!("user{}", i)).to_string()).collect();
+        let _ = take_trace();
+        World { app, model, users, transcript: None }
+    }
+
     pub fn new() -> World {
         let app = new_app();
         let model = ChainM::new(block_tuple(&app.block_info()));
